@@ -9,7 +9,8 @@
 (***************************************************************************)
 EXTENDS Schema, Json
 
-CONSTANTS SMode, Shard, NShards, MutEvery
+CONSTANTS SMode, Shard, NShards, MutEvery,
+          Wide      \* TRUE: unsigned integers beyond int64 are part of the value domain (C19: Go uint64 fields)
 
 VARIABLE sc
 svars == <<sc>>
@@ -93,8 +94,10 @@ FieldProd(fs, n) == IF n = 0 THEN {<<>>} ELSE {Append(s, x) : s \in FieldProd(fs
 Inh(T) ==
   CASE T.k = "int" -> (IF T.n = <<73, 56>> THEN {Scalar("int", <<0, 127>>), Scalar("int", <<1, 127>>)}           \* 127, -128
                        ELSE IF T.n = <<85, 56>> THEN {Scalar("int", <<0, 255>>), Scalar("int", <<0>>)}
-                       ELSE IF T.n = <<85, 54, 52>> THEN {Scalar("int", <<0, 255, 255, 255, 255, 255, 255, 255, 255>>),
-                                                        Scalar("int", <<0, 128, 0, 0, 0, 0, 0, 0, 0>>), Scalar("int", <<0, 7>>)}
+                       ELSE IF T.n = <<85, 54, 52>> THEN
+                              (IF Wide THEN {Scalar("int", <<0, 255, 255, 255, 255, 255, 255, 255, 255>>),
+                                             Scalar("int", <<0, 128, 0, 0, 0, 0, 0, 0, 0>>), Scalar("int", <<0, 7>>)}
+                               ELSE {Scalar("int", <<0, 7>>), Scalar("int", <<0, 127, 255, 255, 255, 255, 255, 255, 255>>)})
                        ELSE IntVals)
     [] T.k = "string" -> StrVals [] T.k = "bool" -> {Scalar("bool", <<1>>)}
     [] T.k = "link" -> LinkVals
